@@ -24,8 +24,8 @@ var c13Space = mkSpace("logout", []fieldDim{
 	{"Host", []string{"", "other.example:8443"}},
 	{"Issuer", []string{"", "b", "c", "unregistered", "absent", "empty"}},
 	{"ID", []string{"", "empty", "absent", "special"}},
-	{"Instant", []string{"", "-1y", "-1h", "now", "+1us", "+1s", "+1h", "junk", "tz", "9dig-", "date", "zone+past", "zone-future", "zone-past", "zone+future", "zone-15future"}},
-	{"NOOA", []string{"", "-1y", "-1us", "now", "+1us", "+1y", "junk", "date", "zero", "epoch", "zone+past", "zone-future", "zone-past", "zone+future"}},
+	{"Instant", []string{"", "-1y", "-1h", "now", "+1us", "+1s", "+1h", "junk", "tz", "9dig-", "date", "zone+past", "zone-future", "zone-past", "zone+future", "zone-15future", "zero", "epoch", "max", "y1601", "y1677-", "y1677+", "y2262-", "y2262+", "y2300", "y3000", "leap"}},
+	{"NOOA", []string{"", "-1y", "-1us", "now", "+1us", "+1y", "junk", "date", "zero", "epoch", "zone+past", "zone-future", "zone-past", "zone+future", "max", "y1601", "y1677-", "y1677+", "y2262-", "y2262+", "y2300", "y3000", "leap"}},
 	{"NameID", []string{"", "absent"}},
 	{"Session", []string{"", "two"}},
 	{"Relay", []string{"", "none"}},
